@@ -20,9 +20,8 @@
     ordinary error outcome `err pos` (byte position of the current token; the op turns it
     into line and column).
   * `parseQuotedExpr(str)` runs the LEXER MODEL (`Lex.lexAll str true`) and a fresh
-    expression parser on its items; an error inside it is positioned in `str`, not in the
-    file (`errSub str pos`) — as the real code does, which builds the message from the
-    sub-tree `tt` (empty name, line/col within the attribute text).
+    expression parser on its items; an error inside it is re-raised at the current token of
+    the enclosing parser.
   * `strconv.Unquote`, `strings.TrimSpace`, `strings.LastIndex`, `unicode.IsSpace`, and the
     leftmost match of `htmlTagRegexp` are re-implemented here from their Go definitions and
     validated by the correspondence like everything else.
@@ -345,7 +344,6 @@ end
 
 inductive FErr where
   | err (pos : Nat)                    -- t.errorf at this byte position of the file
-  | errSub (src : Bytes) (pos : Nat)   -- an error inside parseQuotedExpr(src), positioned in src
   | panic
   | fuelOut
   deriving Repr, DecidableEq, Inhabited
@@ -389,7 +387,9 @@ variable (ef : Nat)
 
 def parseExpr0 : FP Expr := liftP (Parser.parseExpr pf ef 0)
 
-/-- `parseQuotedExpr(str)`: a new lexer and a new parser; trailing tokens are drained -/
+/-- `parseQuotedExpr(str)`: a new lexer and a new parser; trailing tokens are drained.  An
+    error of the nested parser is re-raised by `t.errorf` at the CURRENT token position of the
+    enclosing parser (the deferred recover of parseQuotedExpr); a runtime panic stays a panic. -/
 def parseQuotedExpr (str : Bytes) : FP Expr := fun st =>
   match Lex.lexAll str true with
   | .panic => .error .panic
@@ -397,7 +397,7 @@ def parseQuotedExpr (str : Bytes) : FP Expr := fun st =>
   | .items is =>
     match (Parser.parseExpr pf (Parser.fuelFor is.length) 0).run (Parser.initState is) with
     | .ok (e, _) => .ok (e, st)
-    | .error (.err pos) => .error (.errSub str pos)
+    | .error (.err _) => (errorf : FP Expr) st
     | .error .panic => .error .panic
     | .error .fuelOut => .error .fuelOut
 
@@ -1025,7 +1025,6 @@ def fileEntry (items : List Item) : FileOutcome :=
   | .ok (.list _ nodes, st) => { result := .ok nodes.toList, drained := st.p.rest.isEmpty }
   | .ok (_, _) => { result := .error .panic, drained := false }
   | .error (.err p) => { result := .error (.err p), drained := true }
-  | .error (.errSub s p) => { result := .error (.errSub s p), drained := true }
   | .error .panic => { result := .error .panic, drained := false }
   | .error .fuelOut => { result := .error .fuelOut, drained := false }
 
